@@ -26,6 +26,7 @@ func init() {
 			"progress, all-or-nothing); sampled images additionally append/flush/drain/ACK; distinct_nontrivial = histories with >=1 image inside a flush or ACK " +
 			"transaction with a proper subset of writes kept or a torn header",
 		Assume: []string{
+			"one in six crash histories runs fill-until-error / drain / ACK cycles on a small bounded file (failed flushes, ACK transactions using and releasing the overflow area); their enumeration is capped at 2500 (thorough 8000) images",
 			"the Flushed callback (documented to report committed events) marks which writer calls flushed implicitly; the flush itself is checked all-or-nothing",
 			"same durability model as C01",
 		},
@@ -51,6 +52,10 @@ func RunC06(p *harness.QProgram, thorough bool) Result {
 	}
 	var st harness.CrashStats
 	cp := crashParams(thorough || aux(&harness.Program{Aux: p.Aux}, 2) == 1, aux(&harness.Program{Aux: p.Aux}, 1))
+	if m := aux(&harness.Program{Aux: p.Aux}, 3); m > 0 {
+		cp.MaxImages = int(m)
+		cp.FromFirstFailure = true // skip the long fill phase (ordinary flushes, covered by the other histories)
+	}
 	v = harness.CheckQueueCrashImages(r, cp, &st)
 	c := r.Counters
 	c["images"] = st.Images
